@@ -316,6 +316,49 @@ def run_var_inputs(chk, n, replay=None):
                                                 "alone": a["outs"][-1], "replay_cmd": "./check C16 --replay <this file>"})
 
 
+def pg_body(rng, probe):
+    """one playground request body; members may be left out (the handler then works with the empty text)"""
+    vi = rng.choice([None, None, "", "库存 = 7", "库存 = 3\n甲 = 2", "甲 = 1 / 0", "库存 = 【1，2】"])
+    sc = rng.choice([None, "输入库存\n输出 库存 * 10", "输出 1 + 1", "输出 “p%d”" % rng.randrange(9), "输入库存、甲\n输出 库存 + 甲", "输出 1 /"])
+    if probe and rng.random() < 0.7:
+        # the probe leaves out what an earlier request carried
+        if rng.random() < 0.5:
+            vi = None
+        else:
+            sc = None
+    d = {}
+    if vi is not None:
+        d["VarInput"] = vi
+    if sc is not None:
+        d["SourceCode"] = sc
+    body = json.dumps(d, ensure_ascii=False)
+    if rng.random() < 0.05:
+        body = rng.choice(["", "{", "[]", "null", "{\"SourceCode\": 5}"])
+    return body
+
+
+def run_playground_sequences(chk, n, replay=None):
+    rng = chk.rng
+    cases = [replay["bodies"]] if replay is not None else [[pg_body(rng, False) for _ in range(rng.randrange(1, 4))] + [pg_body(rng, True)] for _ in range(n)]
+    for shared in (True, False):
+        for bodies in cases:
+            o = core.harness("c16", "pgseq", [{"bodies": bodies, "shared": shared}])[0]
+            a = core.harness("c16", "pgseq", [{"bodies": [bodies[-1]], "shared": shared}])[0]
+            chk.count(["pgseq", shared, bodies])
+            chk.dist("playground-requests:%s" % ("one-handler" if shared else "handler-per-request"))
+            if "outs" not in o or "outs" not in a:
+                chk.violation("a sequence of playground requests crashed the process: %s" % json.dumps(o)[:200], "playground:crash",
+                              {"kind": "playground", "bodies": bodies, "observed": o})
+                continue
+            if o["outs"][-1] != a["outs"][-1]:
+                chk.violation("the answer to a playground request depends on earlier requests of the process: after %s the request %s is "
+                              "answered %s, alone %s" % (json.dumps(bodies[:-1], ensure_ascii=False)[:260], bodies[-1][:120],
+                                                         json.dumps(o["outs"][-1], ensure_ascii=False)[:120],
+                                                         json.dumps(a["outs"][-1], ensure_ascii=False)[:120]),
+                              "playground:polluted", {"kind": "playground", "bodies": bodies, "one_handler": shared, "observed": o["outs"][-1],
+                                                      "alone": a["outs"][-1], "replay_cmd": "./check C16 --replay <this file>"})
+
+
 def truncate_after_error(ops, obs):
     """a program stops at its first uncaught error: later operations produce no observation"""
     return obs
@@ -332,6 +375,9 @@ def run(chk, replay=None):
         return
     if replay is not None and replay.get("kind") == "vars":
         run_var_inputs(chk, 0, replay)
+        return
+    if replay is not None and replay.get("kind") == "playground":
+        run_playground_sequences(chk, 0, replay)
         return
     nseq = 60 if quick else 600
     seqs = []
@@ -382,6 +428,7 @@ def run(chk, replay=None):
     run_lib_objects(chk, 60 if quick else 800)
     run_file_histories(chk, 25 if quick else 400)
     run_var_inputs(chk, 25 if quick else 400)
+    run_playground_sequences(chk, 25 if quick else 300)
     chk.sample({"polluters": [render(p) for p in seqs[3][0]] if len(seqs) > 3 else [], "probe": render(seqs[-1][1])})
     # interleavings over one shared interpreter, replayed at method granularity
     nsch = 60 if quick else 600
